@@ -29,7 +29,7 @@ impl Prop for C13 {
         ]
     }
     fn cases(tier: Tier) -> u32 {
-        tier.pick(4_000, 150_000)
+        tier.pick(4_000, 600_000)
     }
     fn strategy(tier: Tier) -> BoxedStrategy<BFCase> {
         let p = params(tier);
